@@ -1,7 +1,32 @@
-"""C09 check configuration (data only)."""
+"""C09 check configuration."""
+import json
+import os
+
 from propbase import KERNEL, HARNESS
 
+# what a run must have reached to count as evidence for the cases named in level_text / design
+REQUIRED_TAGS = ["exact_fit_view=true", "exact_fit_height=true", "height_cut=true", "chained_view=true", "layout_position=nonzero",
+                 "clipped=true", "view=transposed", "view=strided", "invalid_scalar_bytes=true", "set_cursor=true", "session=true",
+                 "put_text=true", "tty=true", "multi_chunk=true", "kind=json_text", "json_glyph_with_text=true", "str_view=true",
+                 "wraps=false", "glyphs=false"]
+
+
+def require_reach(ctx):
+    """a run whose generated cases miss one of the required kinds is reported (not silently accepted)"""
+    if ctx.get("replay"):
+        return {}
+    dist = json.load(open(os.path.join(ctx["build"], "cases", "C09", "meta.json"))).get("distribution", {})
+    cov = {"reach " + t: dist.get(t, 0) for t in REQUIRED_TAGS}
+    missing = [t for t in REQUIRED_TAGS if not dist.get(t, 0)]
+    violations = []
+    if missing:
+        violations.append({"kind": "broken-correspondence",
+                           "what": "the generated cases did not reach: %s (generator changed?)" % ", ".join(missing), "case": {}})
+    return {"violations": violations, "coverage": cov}
+
+
 PROP = {'gen': [],
+ 'extra': [require_reach],
  'coq_props': ['theories/Props/C09.vo'],
  'coq_corr': ['theories/Corr/C09Corr.vo'],
  'props_file': 'theories/Props/C09.v',
